@@ -8,6 +8,7 @@ sys.path.insert(0, V)
 os.environ["VERIF_NO_CANON"] = "1"
 from analysis import extract
 from analysis.ir import Facts
+from analysis import canon
 out = {}
 for crate, d in (("whirlpool", extract.program_facts()), ("orca_whirlpools_core", extract.sdk_facts())):
     F = Facts(d)
@@ -17,7 +18,7 @@ for crate, d in (("whirlpool", extract.program_facts()), ("orca_whirlpools_core"
         if f.kind == "const":
             continue
         fns[f.path] = {"params": [[f.locals[i].get("n"), f.locals[i].get("t")] for i in range(1, f.argc + 1)],
-                       "ret": f.locals[0]["t"], "pub": bool(f.pub), "file": f.file, "kind": f.kind, "x": f.expn,
+                       "ret": f.locals[0]["t"], "pub": bool(f.pub), "file": f.file, "kind": f.kind, "x": f.expn, "lits": canon.literal_fingerprint(f.rec),
                        "callers": sorted({c.path for c, _ in callers.get(f.path, [])})}
     adts = {}
     for p, a in F.adts.items():
